@@ -199,6 +199,17 @@ class Resolver:
                         e = ast.IfExp(test=clone(st.test), body=clone(st.body[0].value), orelse=ast.Name(id=nm, ctx=ast.Load()))  # type: ignore[attr-defined]
                         self.defs[nm] = ast.fix_missing_locations(ast.copy_location(e, st))
                         self.selfdefs.add(nm)
+        # a parameter re-bound exactly once at the top level by an expression over itself
+        # (`to = self.size if to is None else to`, `to = to or self.size`) is that definition as well
+        for idx, st in enumerate(body):
+            nm = _simple_assign(st)
+            if nm in params and counts.get(nm) == 1 and nm not in mutated and nm not in set(keep) and nm not in self.defs:
+                val = st.value  # type: ignore[attr-defined]
+                if any(isinstance(x, ast.Name) and x.id == nm for x in ast.walk(val)):
+                    used_before = any(isinstance(x, ast.Name) and x.id == nm for p_ in body[:idx] for x in ast.walk(p_))
+                    if not used_before:
+                        self.defs[nm] = val
+                        self.selfdefs.add(nm)
         self.depth = depth
 
     def expr(self, e: ast.expr, depth: int | None = None, _skip: frozenset = frozenset()) -> ast.expr:
